@@ -342,6 +342,8 @@ def write_evidence(prop, tier, level, coverage, assumptions, wall_s, violations)
 
 def _call(job):
     fn, args = job
+    import warnings
+    warnings.simplefilter('ignore')
     try:
         return ('ok', fn(*args))
     except Inconclusive as e:
